@@ -34,7 +34,7 @@ TECHNIQUE = "property-based testing (Hypothesis): model-based + metamorphic orac
 
 
 def cases(tier):
-    return 1600 if tier == "quick" else 160000
+    return 1600 if tier == "quick" else 80000
 
 
 SIG_INDEX_TWICE = "C01/compound-index-assignment-evaluates-index-twice"
